@@ -20,7 +20,7 @@ from vlib.core import Stage, fail
 ID = "C12"
 MANIFEST = {
     "category": "exploration",
-    "text": "Schedule exploration by generated-input search: (single) AHB expressions with several modal-mark parts, repeated keys, hints, format constraints and packages occurring several times x content evaluation results x a schedule (list of yield counts consumed call by call by the harness's async RcEvaluator / FcEvaluator methods, HintsProvider and PackageResolver; every third rc method is a plain function). The results of evaluate_ahb_expression_tree (incl. package expansion), requirement_constraint_evaluation and format_constraint_evaluation under the schedule must equal the results under the all-zero schedule and the reference evaluator's selection/outcome; the expanded tree must equal the zero-schedule tree. (concurrent) 2-5 jobs - AHB evaluations and is_valid_expression calls - run as concurrent tasks with yielding ContentEvaluationResult-based evaluators - or a method-based RcEvaluator whose evaluate_<key> coroutines derive their answer from the evaluatable data they are handed - that read the job's own result from a ContextVar; every job must equal its run alone. For is_valid_expression jobs on expressions with 1-3 requirement constraints the harness records which evaluatable data the evaluations of the call were served: exactly the 3^m possible states, each evaluation its own.",
+    "text": "Schedule exploration by generated-input search: (single) AHB expressions with several modal-mark parts, repeated keys, hints, format constraints and packages occurring several times x content evaluation results x a schedule (list of yield counts consumed call by call by the harness's async RcEvaluator / FcEvaluator methods, HintsProvider and PackageResolver; every third rc method is a plain function). The results of evaluate_ahb_expression_tree (incl. package expansion), requirement_constraint_evaluation and format_constraint_evaluation under the schedule must equal the results under the all-zero schedule and the reference evaluator's selection/outcome; the expanded tree must equal the zero-schedule tree. (concurrent) 2-5 jobs - AHB evaluations and is_valid_expression calls - run as concurrent tasks with yielding ContentEvaluationResult-based evaluators - or a method-based RcEvaluator whose evaluate_<key> coroutines derive their answer from the evaluatable data they are handed - that read the job's own result from a ContextVar; every job must equal its run alone. For is_valid_expression jobs on expressions with 1-3 requirement constraints the harness records which evaluatable data the evaluations of the call were served: exactly the 3^m possible states, each evaluation its own. A third of the concurrent cases use a HintsProvider whose get_hint_text is a plain function reading the job's context-local data.",
     "note": "Trusted: the schedule harness (vlib/sched.py), the reference evaluator, attrs equality of result objects. Delays enumerate completion orders among already started awaitables of one single-threaded event loop; threads are out of scope. Process configuration by shard (vlib/sut.py; recorded in replay files): plain / parse caches preheated beyond their size / warnings attributed to ahbicht raised as errors / logging fully enabled with every record rendered.",
     "technique": "property-based schedule exploration (harness-controlled yield counts) with differential (zero schedule) and reference oracles",
 }
@@ -108,7 +108,7 @@ def classify_single(case, info):
 # -------------------------------------------------------------------------------------------------- concurrent
 
 
-def _yielding_cer_based_providers(method_based_rc=False):
+def _yielding_cer_based_providers(method_based_rc=False, sync_hints=False):
     from ahbicht.content_evaluation.fc_evaluators import ContentEvaluationResultBasedFcEvaluator
     from ahbicht.content_evaluation.rc_evaluators import ContentEvaluationResultBasedRcEvaluator
     from ahbicht.expressions.hints_provider import ContentEvaluationResultBasedHintsProvider
@@ -162,13 +162,24 @@ def _yielding_cer_based_providers(method_based_rc=False):
 
                 setattr(MethodRc, f"evaluate_{key}", delayed)
         rc_evaluator = MethodRc()
-    providers = [rc_evaluator, Fc(), Hints(), Packages()]
+    hints_provider = Hints()
+    if sync_hints:
+        # get_hint_text may be a plain function (HintsProvider.get_hints supports both); this one takes the texts from
+        # the job's own content evaluation result in context-local storage, like the shipped providers do
+        from ahbicht.expressions.hints_provider import HintsProvider
+
+        class SyncHints(HintsProvider):
+            def get_hint_text(self, condition_key):  # pylint:disable=invalid-overridden-method
+                return _CER.get().hints.get(condition_key)
+
+        hints_provider = SyncHints()
+    providers = [rc_evaluator, Fc(), hints_provider, Packages()]
     for provider in providers:
         provider.edifact_format, provider.edifact_format_version = sut.FMT, sut.VER
     return providers
 
 
-def _configure_concurrent(method_based_rc=False):
+def _configure_concurrent(method_based_rc=False, sync_hints=False):
     from ahbicht.models.content_evaluation_result import ContentEvaluationResultSchema
 
     schema = ContentEvaluationResultSchema()
@@ -178,7 +189,7 @@ def _configure_concurrent(method_based_rc=False):
         _SEEN.setdefault(_JOB.get(), set()).add(tuple(sorted(body["requirement_constraints"].items())))
         return sut.evaluatable_data(body)
 
-    sut.configure(_yielding_cer_based_providers(method_based_rc), data)
+    sut.configure(_yielding_cer_based_providers(method_based_rc, sync_hints), data)
 
 
 _SEEN = {}  # job index -> the requirement constraint assignments of the evaluatable data served inside that job
@@ -216,7 +227,7 @@ async def _job(index, job):
 
 def check_concurrent(case):
     jobs = case["jobs"]
-    _configure_concurrent(case.get("method_based_rc", False))
+    _configure_concurrent(case.get("method_based_rc", False), case.get("sync_hints", False))
     # every job alone, nothing yields
     alone = []
     for index, job in enumerate(jobs):
@@ -283,7 +294,8 @@ def check_concurrent(case):
 
 
 def classify_concurrent(case, info):
-    labels = [f"jobs={len(case['jobs'])}", "rc-evaluator=" + ("methods" if case.get("method_based_rc") else "cer-based")]
+    labels = [f"jobs={len(case['jobs'])}", "rc-evaluator=" + ("methods" if case.get("method_based_rc") else "cer-based"),
+              "hints-provider=" + ("plain-function" if case.get("sync_hints") else "coroutine")]
     if info["interleaved"]:
         labels.append("jobs-interleaved")
     if any(j["kind"] == "validity" for j in case["jobs"]):
@@ -340,7 +352,8 @@ def strategy_concurrent(tier):
             else:
                 expr, table = draw(_expression(size))
                 jobs.append({"kind": kind, "s": expr["s"], "parts": expr["parts"], "table": table, "cer": draw(vtree.g_cer())})
-        return {"jobs": jobs, "delays": _delays(draw, 60), "method_based_rc": draw(st.booleans())}
+        return {"jobs": jobs, "delays": _delays(draw, 60), "method_based_rc": draw(st.booleans()),
+                "sync_hints": draw(st.sampled_from([False, False, True]))}
 
     return build()
 
